@@ -341,6 +341,8 @@ class IpmReader(VbsReader):
 
     def __next__(self) -> dict:
 
+        # the VBS reader advances record_number once the record has been read - remember this record's number
+        record_number = self.record_number
         vbs_record = super(IpmReader, self).__next__()
         LOGGER.debug(f'{len(vbs_record)}: {vbs_record}')
         try:
@@ -349,7 +351,7 @@ class IpmReader(VbsReader):
             raise MciIpmDataError(
                 'Error while processing ISO8583 record',
                 binary_context_data=self.last_record,
-                record_number=self.record_number,
+                record_number=record_number,
                 original_exception=ex
             )
         return output
